@@ -5,14 +5,14 @@ from kfv.core import Ctx
 from kfv.rules import tensor_rules as TR
 
 TECHNIQUE = ('abstract interpretation of the module helpers over named index spaces with composite (product / concatenation / window) axes, '
-             'per valuation of (linear | conv) x (bias | no bias) x (padding[0], padding[1] each zero | positive, padding guards evaluated abstractly); convolution output-extent arithmetic')
+             'per valuation of (linear | conv) x (bias | no bias) x (padding[0], padding[1] each zero | positive, padding guards evaluated abstractly); convolution output-extent arithmetic; must-pass-through rule for the padding step of _extract_patches')
 EXPLANATION = (
     'get_grad, get_a_factor, get_g_factor, set_grad, a_factor_shape, g_factor_shape and _extract_patches are evaluated on abstract '
     'tensors whose axes are named index spaces; view/reshape must keep the flattening order, cat builds a concatenated axis, unfold '
     'a (window, kernel) pair tagged with the configuration index used, F.pad tags the padded axis.  Decided for every valuation: '
     'the combined gradient is (OUT, features [+ bias last]); the A factor lives over exactly that column space (same feature order: '
     'channel, kernel row, kernel column) and G over OUT; the advertised shapes are those spaces; set_grad returns each piece to its '
-    'own parameter with its own shape; H is handled with index 0 and W with index 1 of padding / kernel_size / stride.  Agreement '
+    'own parameter with its own shape; H is handled with index 0 and W with index 1 of padding / kernel_size / stride; no exit of _extract_patches lies above the padding step unless its guard tests the padding (must-pass-through on the statement structure).  Agreement '
     'with F.unfold as values and dilation / groups (unsupported by the library) are not decided.')
 
 NOT_DECIDED = 'agreement with F.unfold as values; dilation / groups (unsupported by the library)'
